@@ -32,7 +32,9 @@ TRACKERS = [U("SystemPopulation.change_state_accept"), U("SystemPopulation.chang
             U("GroupedNodePopulation.change_state_accept"), U("GroupedNodePopulation.change_state_release"),
             U("NodeClassMatrix.change_state_accept"), U("NodeClassMatrix.change_state_release"), U("NodeClassMatrix.change_state_classchange"),
             U("NaiveBlocking.change_state_accept"), U("NaiveBlocking.change_state_block"), U("NaiveBlocking.change_state_release"),
-            U("MatrixBlocking.change_state_accept"), U("MatrixBlocking.change_state_block"), U("StateTracker.timestamp")]
+            U("MatrixBlocking.change_state_accept"), U("MatrixBlocking.change_state_block"), U("StateTracker.timestamp"),
+            U("SystemPopulation.initialise"), U("NodePopulation.initialise"), U("NaiveBlocking.initialise"),
+            U("NodePopulationSubset.initialise"), U("GroupedNodePopulation.initialise")]
 
 ROUTERS = [U("Direct.next_node"), U("Leave.next_node"), U("Probabilistic.next_node"), U("Cycle.next_node"),
            U("JoinShortestQueue.next_node"), U("JoinShortestQueue.next_node", "LoadBalancing"), U("ProcessBased.next_node"),
